@@ -14,6 +14,7 @@ import shutil
 
 from vf.monitors.audit import AUDIT, NET
 from vf.net import ofxserver
+from vf.net.fakehttp import transport_error
 from vf.net.fakehttp import FakeNet, Reply
 from vf.net.loopback import LoopbackNet
 from vf.oracles import ref_request
@@ -33,8 +34,8 @@ LEVEL_TEXT = ("Exploration of histories: thousands of multi-client operation seq
               "any network event during dry runs, and cookie confinement/replay per client instance.")
 LEVEL_NOTE = "Trusts the recording fake (which replaces only http_open/https_open) and the audit hook as ground truth for 'no network activity'."
 DESIGN_REF = "DESIGN.md §3 C14"
-MIN_COUNTERS = {"quick": {"scenarios": 780, "ops_checked": 2500, "dryrun_ops": 500, "posts_checked": 2500, "cookie_requests_checked": 2500, "loopback_scenarios": 60, "audit_net_events": 3000},
-                "thorough": {"scenarios": 15000, "ops_checked": 50000, "dryrun_ops": 10000, "posts_checked": 50000, "cookie_requests_checked": 50000, "loopback_scenarios": 1200, "audit_net_events": 60000}}
+MIN_COUNTERS = {"quick": {"scenarios": 780, "ops_checked": 2500, "dryrun_ops": 500, "posts_checked": 2500, "cookie_requests_checked": 2500, "loopback_scenarios": 60, "audit_net_events": 3000, "ops_with_transport_failure": 400},
+                "thorough": {"scenarios": 15000, "ops_checked": 50000, "dryrun_ops": 10000, "posts_checked": 50000, "cookie_requests_checked": 50000, "loopback_scenarios": 1200, "audit_net_events": 60000, "ops_with_transport_failure": 8000}}
 
 OPS = ["stmt", "stmtend", "acctinfo", "tax", "profile"]
 
@@ -74,7 +75,9 @@ def gen_scenario(rng, idx, loopback_base=None):
     ops = []
     for _ in range(rng.randint(1, 8)):
         c = rng.choice(clients)
-        ops.append({"client": c["tag"], "op": rng.choice(OPS), "mode": rng.choice(["normal", "normal", "dryrun", "skip"])})
+        ops.append({"client": c["tag"], "op": rng.choice(OPS), "mode": rng.choice(["normal", "normal", "dryrun", "skip"]),
+                    # the server (fake transport only) takes the operation's own request and then fails: still exactly one POST of it
+                    "fault": None if loopback_base else rng.choice([None] * 12 + ["timeout", "http500", "reset", "timeout"])})
     return {"idx": idx, "clients": clients, "ops": ops, "loopback": bool(loopback_base)}
 
 
@@ -102,6 +105,13 @@ class Recorder:
             val = f"{tag}x{self.scen['idx'].replace('/', '_')}x{self.counter}"
             self.cookie_owner[val] = tag
             headers.append(("Set-Cookie", f"SID={val}; Path=/"))
+        fault = getattr(self, "fault", None)
+        if fault and (b"<PROFRQ>" not in body or self.fault_on_profile):
+            import urllib.error
+            exc = {"timeout": TimeoutError("timed out (injected after the request was received)"),
+                   "http500": urllib.error.HTTPError(rec["url"], 500, "Internal Server Error (injected)", {}, None),
+                   "refused": transport_error(), "reset": ConnectionResetError(104, "Connection reset by peer (injected)")}[fault]
+            return Reply(exc=exc)
         if b"<PROFRQ>" in body:
             svc = c["service_url"] if c else "https://unknown.invalid/"
             if c and c.get("advertise") == "multi":
@@ -132,6 +142,7 @@ def run_scenario(ctx, scen, net):
         if op["op"] != "profile":
             kw["skip_profile"] = op["mode"] == "skip"
         n0, a0 = len(net.records), AUDIT.mark()
+        rec.fault, rec.fault_on_profile = op.get("fault"), op["op"] == "profile"
         try:
             if op["op"] == "stmt":
                 r = cl.request_statements(c["password"], StmtRq(acctid="111", accttype="CHECKING"), CcStmtRq(acctid="222"), **kw)
@@ -147,6 +158,7 @@ def run_scenario(ctx, scen, net):
         except Exception as e:
             outcome = ("exc", repr(e))
         net.set_client(None)
+        rec.fault = None
         history.append({"op": op, "client": c, "records": net.records[n0:], "audit": AUDIT.since(a0, NET), "outcome": outcome})
     return history, rec
 
@@ -175,6 +187,19 @@ def check_history(ctx, scen, history, rec):
             for p in posts:
                 if c["password"].encode() in (p["body"] or b"") and p["url"] not in adv:
                     ctx.violation("credentials-to-unadvertised-url", f"client {c['tag']} {tag}: profile advertises {sorted(adv)}, credentials POSTed to {p['url']}", case)
+            continue
+        if op.get("fault") and op["mode"] != "dryrun":
+            # the server failed after taking the request: the call fails, and the request was sent once - not repeated behind the caller's back
+            ctx.count("ops_with_transport_failure")
+            if op["op"] == "profile" or op["mode"] == "skip":
+                want_urls = [c["profile_url"]]
+            else:
+                want_urls = [c["profile_url"], c["service_url"]]
+            got = [p["url"] for p in posts]
+            if h["outcome"][0] != "exc":
+                ctx.violation(f"transport-failure-swallowed/{tag}", f"client {c['tag']} {tag}: server failed with {op['fault']} but the call returned normally", case)
+            elif got != want_urls:
+                ctx.violation(f"request-repeated-after-transport-failure/{op['fault']}", f"client {c['tag']} {tag}: {op['fault']} -> requests went to {got}, expected exactly {want_urls}", case)
             continue
         if h["outcome"][0] == "exc":
             ctx.violation(f"operation-raises/{tag}", f"client {c['tag']} {tag}: {h['outcome'][1]}", case)
@@ -255,7 +280,7 @@ def check_history(ctx, scen, history, rec):
 def run_shard(ctx):
     AUDIT.install()
     AUDIT.enabled = True
-    n = (800 if ctx.tier == "quick" else 16000) // ctx.nshards
+    n = (960 if ctx.tier == "quick" else 19200) // ctx.nshards
     fake = FakeNet().install()
     loop = None
     try:
